@@ -837,8 +837,13 @@ def unreadable_member_cases(ctx, tmp):
                 os.chmod(os.path.join(root, "a.bin"), 0o000)
             else:
                 os.remove(os.path.join(root, "z.empty"))
-                sk = _socket.socket(_socket.AF_UNIX)
-                sk.bind(os.path.join(root, "z.empty")); sk.close()
+                try:
+                    sk = _socket.socket(_socket.AF_UNIX)
+                    sk.bind(os.path.join(root, "z.empty")); sk.close()
+                except OSError:                      # no unix sockets here, or the path is too long for one: nothing to conclude
+                    ctx.count("platform_limit_unreadable_member_skipped")
+                    shutil.rmtree(d, ignore_errors=True)
+                    continue
             verdicts = []
             for step in ("content otherwise intact", "same-length wrong bytes in another file"):
                 if step.startswith("same-length"):
